@@ -76,7 +76,7 @@ def collect_repo_traces(sc):
 
 
 def run(rep, tier, props):
-    nprog = {'quick': 240, 'thorough': 3000}[tier]
+    nprog = {'quick': 240, 'thorough': 1500}[tier]
     import random
     rng = random.Random(rep.seed)
     shapes = [(4, [2, 1], ['C', 'C'], 3), (5, [3], ['C'], 2), (6, [1, 2], ['C', 'I'], 2), (3, [2, 2, 1], ['C', 'C', 'C'], 4)]
@@ -147,7 +147,7 @@ def run(rep, tier, props):
             # ... and the logged column map: give two scenarios of different events the same columns; ColMapOK must flag it
             cor = []
             for tid, (src, t) in enumerate(lst, 1):
-                if tid in acc and len(cor) < 4:
+                if tid in acc and len(cor) < 4 and all(e_.get('out', 'ok') == 'ok' for e_ in t['events']):      # (no variable left undefined by a failed adapt)
                     c = json.loads(json.dumps(t))
                     for e in c['events']:
                         if e['ev'] == 'rule_var' and e['out'] == 'ok':
